@@ -263,6 +263,41 @@ let tcp_parse_op kv =
      else "")
     (show_o tcp_show (tcp_parse sok (getbool kv "rx") bs))
 
+(* ---------------- TcpOption stand-alone ---------------- *)
+let opt_show (o : tcp_option) : string =
+  let rs = function None -> "-" | Some (a, b) -> Printf.sprintf "%s:%s" (sz a) (sz b) in
+  match o with
+  | OptEnd -> "end" | OptNop -> "nop"
+  | OptMss v -> "mss:" ^ sz v | OptWs v -> "ws:" ^ sz v | OptSackPerm -> "sackp"
+  | OptSackRange (a, b, c) -> Printf.sprintf "sack:%s,%s,%s" (rs a) (rs b) (rs c)
+  | OptTs (a, b) -> Printf.sprintf "ts:%s:%s" (sz a) (sz b)
+  | OptUnknown (k, d) -> Printf.sprintf "unk:%s:%s" (sz k) (if d = [] then "-" else hex_of_bytes d)
+let opt_of_spec (spec : string) : tcp_option =
+  let p = String.split_on_char ':' spec in
+  match p with
+  | ["end"] -> OptEnd | ["nop"] -> OptNop
+  | ["mss"; v] -> OptMss (zs v) | ["ws"; v] -> OptWs (zs v) | ["sackp"] -> OptSackPerm
+  | "sack" :: _ ->
+      let rest = String.sub spec 5 (String.length spec - 5) in
+      let r s = if s = "-" then None else
+        (match String.split_on_char ':' s with [a; b] -> Some (zs a, zs b) | _ -> failwith "range") in
+      (match String.split_on_char ',' rest with
+       | [a; b; c] -> OptSackRange (r a, r b, r c) | _ -> failwith "sack")
+  | ["ts"; a; b] -> OptTs (zs a, zs b)
+  | ["unk"; k; d] -> OptUnknown (zs k, if d = "-" then [] else bytes_of_hex d)
+  | _ -> failwith ("bad option spec " ^ spec)
+let opt_parse_show (b : z list) : string =
+  match tcp_option_parse b with
+  | Ok (rest, o) -> Printf.sprintf "Ok rest=%d o=%s" (List.length rest) (opt_show o)
+  | Err _ -> "Err" | Panic -> "PANIC"
+let tcpopt_emit_op kv =
+  let buf = if get kv "buf" = "-" then [] else getb kv "buf" in
+  let lim = z_of_int (List.length buf) in
+  match tcp_option_emit (opt_of_spec (get kv "o")) buf (z_of_int 0) lim with
+  | Ok (b, pos) -> Printf.sprintf "ret %s rest=%d | %s" (show_bytes b) (List.length buf - int_of_z pos) (opt_parse_show b)
+  | _ -> "ret PANIC | -"
+let tcpopt_parse_op kv = "parse " ^ opt_parse_show (getb kv "bytes")
+
 (* ---------------- dispatch ---------------- *)
 let dispatch : (string * ((string * string) list -> string) * ((string * string) list -> string)) list = [
   ("eth", eth_emit_op, eth_parse_op);
@@ -273,6 +308,7 @@ let dispatch : (string * ((string * string) list -> string) * ((string * string)
   ("icmpv4", icmpv4_emit_op, icmpv4_parse_op);
   ("icmpv6", icmpv6_emit_op, icmpv6_parse_op);
   ("tcp", tcp_emit_op, tcp_parse_op);
+  ("tcpopt", tcpopt_emit_op, tcpopt_parse_op);
 ]
 
 let () =
